@@ -851,9 +851,18 @@ def expr_specs(draw, profile=None):
         kinds += ["mixdrop", "mixdrop"]
     if len(coefs) >= 2 and not has_arg:
         kinds += ["gateaux", "gateaux"]
+    hess = [k for k, ei in enumerate(coefs) if g.affine and elements[ei][0] == "el" and elements[ei][1] == "P" and int(elements[ei][2]) >= 2]
+    if hess and not has_arg:
+        kinds += ["hessian"] * 5
     kind = draw(st.sampled_from(kinds))
     g.features.add("exprkind:" + kind)
-    if kind == "Lf":
+    if kind == "hessian":
+        # all second derivatives of a coefficient (mixed ones occur twice: d/dXdY and d/dYdX)
+        k = draw(st.sampled_from(hess))
+        e = ["grad", ["grad", ["f", k]]]
+        if g.chance(0.5):
+            e = ["mul", gen_scalar(g, m, 1), e]
+    elif kind == "Lf":
         k = g.int(0, len(coefs) - 1)
         e = gen_linear(g, ["f", k], elements[coefs[k]], m, allow_restrict=False)
         if g.chance(0.5):
@@ -920,7 +929,7 @@ def _n(restr=None):
 TEMPLATES = {
     # name: (measures, arity, needs)
     "mass": "dx", "stiffness": "dx", "helmholtz-coefficient": "dx", "elasticity": "dx", "convection": "dx", "hyperelastic-derivative": "dx",
-    "mixed-poisson": "dx", "curl-curl": "dx", "stokes": "dx",
+    "mixed-poisson": "dx", "curl-curl": "dx", "stokes": "dx", "coefficient-product": "dx",
     "dg-avg-avg": "dS", "dg-jump-jump": "dS", "dg-interior-penalty": "dS", "dg-upwind": "dS", "nitsche-boundary": "ds", "facet-normal-flux": "ds",
 }
 
@@ -981,6 +990,21 @@ def template_specs(draw, profile=None):
         # energy functional -> residual by differentiation w.r.t. f0 (arity 0 functional compiled through `derivative`)
         spec["args"] = []
         spec["transform"] = ["derivative", 0]
+    elif name == "coefficient-product":
+        # several coefficients with different numbers of dofs in one integral (their evaluation loops have different extents)
+        pool = [["el", "P", 1, {}], ["el", "P", 2, {}], ["el", "P", 0, {"dc": True}], ["el", "P", 1, {"shape": [gdim]}], ["el", "P", 1, {"dc": True}]]
+        if tdim < 3:
+            pool.append(["el", "P", 3, {}])
+        k = draw(st.integers(3, 4))
+        chosen = draw(st.permutations(pool))[:k]
+        spec["elements"] = [P] + chosen
+        spec["args"] = [0] if draw(st.booleans()) else [0, 0]
+        spec["coefs"] = list(range(1, k + 1))
+        prod = None
+        for j, E in enumerate(chosen):
+            fj = ["f", j] if not E[3].get("shape") else ["idx", ["f", j], draw(st.integers(0, gdim - 1))]
+            prod = fj if prod is None else ["mul", prod, fj]
+        add("dx", ["mul", prod, v] if len(spec["args"]) == 1 else ["mul", prod, ["inner", u, v]])
     elif name == "mixed-poisson":
         rt = draw(st.sampled_from(["RT", "BDM"]))
         spec["elements"] = [["mixed", [["el", rt, deg if deg < 3 else 2, {}], ["el", "P", max((deg if deg < 3 else 2) - 1, 0), {"dc": True}]]]]
